@@ -11,7 +11,7 @@ ASSUMPTIONS = [
     "delivery model: per-channel FIFO interleavings, sleep-set reduced; canonical schedule where stated",
 ]
 BOUNDS = {
-    "quick": "MGM: pair (all schedules), pair with two constraints and own cost tables on both variables (second table pinned to 0), chain-3 (canonical schedule), min and max; MGM2: pair, chain-3 pinned to the witness tables of the committed-tie finding; stop_cycle 3",
+    "quick": "MGM: pair (also with break_mode=random) (all schedules), pair with two constraints and own cost tables on both variables (second table pinned to 0), chain-3 (canonical schedule), min and max; MGM2: pair, chain-3 pinned to the witness tables of the committed-tie finding; stop_cycle 3",
     "thorough": "quick + MGM triangle, star-3, ternary; chain-3 all schedules; bug hunting only (cpu budget): MGM2 chain-3 with symbolic tables",
 }
 OUTSIDE = "more than 4 variables, domain above 2, cycles beyond the third (inductive reading through arbitrary initial values; "\
@@ -27,6 +27,9 @@ def jobs(tier):
                     "fixed": True})
         # own cost tables on both variables, two constraints over the same pair (tables of the second constraint and the
         # initial assignment pinned to keep the job small)
+        # non-default tie-break parameter
+        out.append({"name": "mgm-pair-breakrandom-%s" % mode, "algo": "mgm", "spec": spec("pair", mode), "stop": 3,
+                    "params": {"break_mode": "random"}})
         out.append({"name": "mgm-pairdblvcost-%s" % mode, "algo": "mgm", "stop": 3, "upfront": True,
                     "spec": spec("pair_dbl_vcost2", mode, pins={"c1_00": 0, "c1_01": 0, "c1_10": 0, "c1_11": 0})})
         out.append({"name": "mgm2-pair-%s" % mode, "algo": "mgm2", "spec": spec("pair", mode), "stop": 3, "upfront": True})
